@@ -33,12 +33,13 @@ func checkC20(c *Ctx) {
 		hroots = append(hroots, ht)
 	}
 	ruleNoHiddenState(c, hroots)
+	ruleGroupOrderFixed(c, norm)
 	c.MinCount("R20.1", 2)
 	c.MinCount("R20.2", 3)
 	c.MinCount("R20.4", 5)
 	c.MinCount("R20.5", 3)
 	c.DecidedClause("handlers are grouped by a key that depends on the physical location only; every discovered handler is appended exactly once to its group (no filter, no overwrite), every handler of a group becomes a handler of the device and takes part in the type decision, one device per group; the classification functions use their slice arguments only through len() and whole-slice iteration (no element is selected by position), and the type precedence is joystick, then standard keyboard, then not playable")
-	c.UndecidedClause("ID, name and handler order of a device follow discovery order (positional `dis[0].ID`, first-shortest name): reported as a note, the statement constrains grouping and types")
+	c.DecidedClause("what a device takes from its handlers by position (ID) or by a first-wins scan (name, uniq) is taken after the group was sorted by a key that reads those fields: it does not depend on the discovery order")
 }
 
 // ruleGroupingKey: R20.1.
